@@ -491,6 +491,7 @@ def nan_reduce(ctx, kind, x):
         elif kind == 'min':
             ctx.schemas.append(smt.Forall(0, x.n, lambda j: z3.Implies(z3.And(z3.Not(allnan), z3.Not(to_real_parts(at(j))[0])), to_real_parts(at(j))[1] >= r), name='mn'))
         else:
+            ctx.underdetermined = True
             # mean of the non-NaN elements: somewhere between their min and max (all the contract says)
             lo = nan_reduce(ctx, 'min', x)
             hi = nan_reduce(ctx, 'max', x)
@@ -570,6 +571,7 @@ def _percentile(interp, args, kwargs):
     ctx.assume(z3.Implies(qv == 100, r == to_real_parts(at(hi))[1]))
     ctx.hint(lo, hi)
     out = SFloat(r, False, 'npfloat')
+    ctx.underdetermined = True
     ctx.ghost.setdefault('percentile_calls', []).append((a, q, out, lo, hi))
     return out
 
